@@ -29,9 +29,12 @@
 (* module.  Domain = "clean" restricts the descriptors to the declarative  *)
 (* predicate Clean (where the property must hold), "defect" to its         *)
 (* complement (where the model exhibits the recorded defects), "all" checks*)
-(* the characterisation  clause holds <=> its Clean-predicate.  Every      *)
-(* descriptor is printed as a CASE and replayed on the real code           *)
-(* (gverif/props/c08.py, c09.py).                                          *)
+(* the characterisation  clause holds <=> its Clean-predicate  together    *)
+(* with the clauses restricted to the clean part (Clean_<clause>).  The    *)
+(* run is Build, AsJson, FromJson, AsJsonAgain, Observe; Observe stores    *)
+(* what the invariants read in `obs` (TLC does not memoise operators).     *)
+(* Every descriptor is printed as a CASE and replayed on the real code     *)
+(* (gverif/props/c08.py, c09.py; SerdeSchema.tla adds the schema step).    *)
 (***************************************************************************)
 EXTENDS Naturals, Sequences, FiniteSets, TLC, Json
 
@@ -707,7 +710,9 @@ CleanNames == LET o == FocusOf(MkChain)
               IN \A i \in 1..Len(SlotsOf(o)) :
                    LET sl == SlotsOf(o)[i]
                    IN NamePars(sl.ev.e) # <<>> =>
-                        /\ AttachedSlot(o.kind, sl.slot) /\ sl.ev.scope = "container" /\ SafeTree(sl.ev.e)
+                        IF AttachedSlot(o.kind, sl.slot)
+                        THEN sl.ev.scope = "container" /\ SafeTree(sl.ev.e)
+                        ELSE Unvisited(sl.ev.e)          \* bases, attribute annotations: never visited
 RECURSIVE HasMarkedLambda(_)
 HasMarkedLambda(n) ==
   IF IsScalar(n) THEN n.c = "@pk:enum:posonly"
